@@ -89,6 +89,18 @@ def check(ctx, rid, rel, fname, make_args, spec, what):
 
 def rule_pure(ctx):
     ctx.rule("C17.pure", "T2", "the OEM functions are pure functions of their arguments (no module state, no identity-keyed caches)")
+    # the inverse the formulas are written with: an imported inv / pinv - not a wrapper that lets LAPACK overwrite its argument (S_a and S_y are
+    # the caller's arrays; Fortran-ordered ones are destroyed in place and inverted again within one call)
+    for rel in (COMMON, ERROR):
+        mod = ctx.mod(rel)
+        for st in mod.tree.body:
+            if isinstance(st, ast.Assign) and any(isinstance(t, ast.Name) and t.id in ("inv", "pinv", "solve") for t in st.targets):
+                kws = {k.arg: str(norm(k.value)) for c_ in ast.walk(st.value) if isinstance(c_, ast.Call) for k in c_.keywords}
+                over = [k_ for k_, v_ in kws.items() if k_ in ("overwrite_a", "overwrite_b") and v_ == "True"]
+                if not over and not any(k_.startswith("overwrite") for k_ in kws):
+                    raise AnalysisError("%s: module-level re-definition %s of the inverse not understood" % (rel, norm(st)[:80]))
+                ctx.ob("%s.inv" % rel.split("/")[-1], not over, "%s" % norm(st)[:120], "the inverse leaves its argument alone (no overwrite_a=True): the covariance matrices are the caller's",
+                       node=st, func=None, witness=None if not over else {"S_y": "np.asfortranarray(...)", "after the call": "overwritten with its LU factors / inverse"})
     bad = []
     node0 = None
     for rel in (COMMON, ERROR):
